@@ -5,5 +5,5 @@ THEOREMS = []
 TRUSTED = []
 ASSUMPTIONS = []
 LEVEL_TEXT = "Lean theorems: the reduction invariant (unimodular non-negative matrix steps preserve the gcd and the cofactor relation) implies correctness of any step sequence; single-limb gcd, binary loop, Jacobi base case equal to Mathlib's jacobiSym; mpz wrappers' normalisation and special cases. Differential run with quotient sequences chosen explicitly (Fibonacci-like, huge quotients)."
-LEVEL_NOTE = "mpn_hgcd/mpn_hgcd_reduce at n >= HGCD_REDUCE_THRESHOLD (truncation analysis of mpn_hgcd_appr), the bound M->n <= (n-p-1)/2 (hypothesis HgcdMn) and the link from the proved sized model of mpn_gcdext's divide-and-conquer loop to the hypothesis MpnGcdextContractDC of the mpz theorems rest on the correspondence run."
+LEVEL_NOTE = "mpn_hgcd/mpn_hgcd_reduce at n >= HGCD_REDUCE_THRESHOLD (truncation analysis of mpn_hgcd_appr) and the tightness of M->n above HGCD_THRESHOLD (checked on the real mpn_hgcd by the predicate op mpn_hgcd_tight) rest on the correspondence run; the sized gcdext theorems cover a smaller operand of up to 10276 limbs."
 PLACEHOLDER = True
